@@ -194,7 +194,15 @@ func RunSharded(r *Run, testName string, body func(s *Shard)) {
 		}
 		viols = append(viols, o.Viols...)
 	}
-	sort.Slice(viols, func(i, j int) bool { return viols[i].Key < viols[j].Key })
+	sort.Slice(viols, func(i, j int) bool { // same key from several children: the shortest description is reported
+		if viols[i].Key != viols[j].Key {
+			return viols[i].Key < viols[j].Key
+		}
+		if len(viols[i].What) != len(viols[j].What) {
+			return len(viols[i].What) < len(viols[j].What)
+		}
+		return viols[i].What < viols[j].What
+	})
 	for _, v := range viols {
 		r.Violation(v.Key, v.What, v.Detail)
 	}
